@@ -4,14 +4,17 @@
 //	poolkeys replay <behaviours.jsonl> [i n]      (shard i of n)
 //
 // Every template of the spec (kind + parameters, logged with each step) is built
-// as a real transaction; Append = TxPool.VerifyTx, then AppendTx when that
-// accepted (the exported conflict-manager methods, no validation), Remove =
-// TxPool.CleanSubmittedTransactions on a block holding the transaction.  After
-// every step the verdict and the complete content of the conflict slots
-// (VerifSnapshot) are compared with the spec's index.
+// as a real transaction; Append = TxPool.VerifAppendUnchecked, the pool half of
+// appendToTxPool (side-chain pow replacement, VerifyTx, size check, AppendTx,
+// doAddTransaction; hook mempool/verif_c34_append.go, no chain validation),
+// Connect = TxPool.CleanSubmittedTransactions on a block holding the one
+// transaction (pooled or not).  After every step the verdict, the membership of
+// the pool (transaction list, fee list) and the complete content of the conflict
+// slots (VerifSnapshot) are compared with the spec's.
 package main
 
 import (
+	"bytes"
 	"fmt"
 	"hash/fnv"
 	"os"
@@ -21,6 +24,7 @@ import (
 	"strings"
 
 	"github.com/elastos/Elastos.ELA/common"
+	"github.com/elastos/Elastos.ELA/common/config"
 	"github.com/elastos/Elastos.ELA/core"
 	"github.com/elastos/Elastos.ELA/core/checkpoint"
 	"github.com/elastos/Elastos.ELA/core/contract"
@@ -121,6 +125,9 @@ func stakeHash(name string) common.Uint168 {
 }
 
 var outpoints = map[string]common2.OutPoint{}
+
+// onDuty is the harness key that is the cross-chain arbiter on duty of the node (nil if none)
+var onDuty *stack.Key
 
 func hexs(b []byte) string { return common.BytesToHexString(b) }
 
@@ -268,7 +275,7 @@ var txCache = map[string]interfaces.Transaction{}
 
 // build constructs the transaction of a template (cached by name; the definition
 // of a name never changes within a run).
-func build(name string, d map[string]interface{}) (tx interfaces.Transaction, err error) {
+func build(name string, d map[string]interface{}, ins []string) (tx interfaces.Transaction, err error) {
 	if t, ok := txCache[name]; ok {
 		return t, nil
 	}
@@ -505,11 +512,50 @@ func build(name string, d map[string]interface{}) (tx interfaces.Transaction, er
 	case "TransferAsset":
 		typ = common2.TransferAsset
 		pl = &payload.TransferAsset{}
+	case "Vote":
+		// a transfer with a vote output (producer votes: Delegate, CR votes: CRC)
+		typ = common2.TransferAsset
+		pl = &payload.TransferAsset{}
+		vt := outputpayload.Delegate
+		if rep.Str(d, "vtype") == "CRC" {
+			vt = outputpayload.CRC
+		}
+		var cvs []outputpayload.CandidateVotes
+		for _, cand := range strsOf(d, "cands") {
+			cb := pub(cand)
+			if vt == outputpayload.CRC {
+				cb = u168(cand).Bytes()
+			}
+			cvs = append(cvs, outputpayload.CandidateVotes{Candidate: cb, Votes: 100})
+		}
+		outs = []*common2.Output{{AssetID: core.ELAAssetID, Value: 100, ProgramHash: key("OUT").Hash, Type: common2.OTVote,
+			Payload: &outputpayload.VoteOutput{Version: outputpayload.VoteProducerAndCRVersion, Contents: []outputpayload.VoteContent{{VoteType: vt, CandidateVotes: cvs}}}}, plainOut(50)}
+	case "SideChainPow":
+		typ = common2.SideChainPow
+		sp := &payload.SideChainPow{SideBlockHash: h256(rep.Str(d, "block")), SideGenesisHash: h256(rep.Str(d, "genesis")), BlockHeight: 5}
+		signer := key("NOT-ON-DUTY")
+		if rep.Bool(d, "onduty") {
+			if onDuty == nil {
+				return nil, fmt.Errorf("no arbiter of the harness is on duty")
+			}
+			signer = onDuty
+		}
+		buf := new(bytes.Buffer)
+		if err := sp.SerializeUnsigned(buf, payload.SideChainPowVersion); err != nil {
+			return nil, err
+		}
+		sig, err := signer.Acc.Sign(buf.Bytes()[0:68])
+		if err != nil {
+			return nil, err
+		}
+		sp.Signature = sig
+		pl = sp
+		outs = nil
 	default:
 		return nil, fmt.Errorf("unknown transaction kind %q", kind)
 	}
 	var inputs []*common2.Input
-	for _, in := range strsOf(d, "ins") {
+	for _, in := range ins {
 		op, ok := outpoints[in]
 		if !ok {
 			return nil, fmt.Errorf("unknown outpoint %q", in)
@@ -531,6 +577,9 @@ func shape(d map[string]interface{}) string {
 	s := rep.Str(d, "kind")
 	if p := rep.Str(d, "ptype"); p != "" {
 		s += "." + p
+	}
+	if v := rep.Str(d, "vtype"); v != "" {
+		s += "." + v
 	}
 	if _, ok := d["ver"]; ok {
 		s += fmt.Sprintf(".v%d", rep.Int(d, "ver"))
@@ -580,25 +629,47 @@ type world struct {
 	n *stack.Node
 }
 
-func newWorld(registered map[string]string) (*world, error) {
-	n, err := stack.New(stack.Options{})
+var arbiterNames = []string{"ARB1", "ARB2", "ARB3", "ARB4", "ARB5"}
+
+func newWorld(registered map[string]string, inputs []string) (*world, error) {
+	// the origin arbiters of the node are harness keys, so that a side-chain pow
+	// transaction can be signed by the arbiter on duty
+	n, err := stack.New(stack.Options{Tweak: func(p *config.Configuration) {
+		var arbs []string
+		for _, a := range arbiterNames {
+			arbs = append(arbs, hexs(pub(a)))
+		}
+		p.DPoSConfiguration.OriginArbiters = arbs
+	}})
 	if err != nil {
 		return nil, err
 	}
 	w := &world{n: n}
-	// two blocks: their coinbase outputs are the outpoints o1..o4
-	i := 1
-	for b := 0; b < 2; b++ {
+	// coinbase outputs of a few blocks are the outpoints the templates spend
+	// (CleanSubmittedTransactions looks the inputs of a block's transaction up)
+	i := 0
+	for i < len(inputs) {
 		blk, err := n.MineOn(nil, 0)
 		if err != nil {
 			return nil, fmt.Errorf("prefix block: %v", err)
 		}
 		cb := blk.Transactions[0]
 		for j := range cb.Outputs() {
-			outpoints[fmt.Sprintf("o%d", i)] = common2.OutPoint{TxID: cb.Hash(), Index: uint16(j)}
-			i++
+			if i < len(inputs) {
+				outpoints[inputs[i]] = common2.OutPoint{TxID: cb.Hash(), Index: uint16(j)}
+				i++
+			}
 		}
 	}
+	func() {
+		defer func() { recover() }()
+		od := n.Arbiters.GetOnDutyCrossChainArbitrator()
+		for _, a := range arbiterNames {
+			if len(od) > 0 && hexs(od) == hexs(pub(a)) {
+				onDuty = key(a)
+			}
+		}
+	}()
 	// the producers registered on chain (Registered in PoolKeys.tla): the DPoS state
 	// processes their registrations
 	var owners []string
@@ -680,16 +751,13 @@ func (w *world) doAppend(pool *mempool.TxPool, tx interfaces.Transaction) (v ver
 			v = verdict{kind: "panic", msg: fmt.Sprint(r)}
 		}
 	}()
-	if err := pool.VerifyTx(tx); err != nil {
+	if err := pool.VerifAppendUnchecked(tx); err != nil {
 		return classify(err, "")
-	}
-	if err := pool.AppendTx(tx); err != nil {
-		return classify(err, "AppendTx after VerifyTx accepted: ")
 	}
 	return verdict{kind: "ok"}
 }
 
-func (w *world) doRemove(pool *mempool.TxPool, tx interfaces.Transaction) (v verdict) {
+func (w *world) doConnect(pool *mempool.TxPool, tx interfaces.Transaction) (v verdict) {
 	defer func() {
 		if r := recover(); r != nil {
 			v = verdict{kind: "panic", msg: fmt.Sprint(r)}
@@ -697,7 +765,7 @@ func (w *world) doRemove(pool *mempool.TxPool, tx interfaces.Transaction) (v ver
 	}()
 	blk := &types.Block{Header: common2.Header{Height: w.n.Chain.GetHeight() + 1}, Transactions: []interfaces.Transaction{tx}}
 	pool.CleanSubmittedTransactions(blk)
-	return verdict{kind: "removed"}
+	return verdict{kind: "connected"}
 }
 
 // expected index of a step: slot -> printed key -> owner template
@@ -745,7 +813,7 @@ func replayOne(w *world, b rep.Behaviour) bool {
 		t := rep.Str(st, "t")
 		d := rep.Map(st, "def")
 		c := map[string]interface{}{"behaviour": b[:i+1]}
-		tx, err := build(t, d)
+		tx, err := build(t, d, strsOf(st, "ins"))
 		if err != nil {
 			rep.Mismatch(err.Error(), c)
 			return false
@@ -758,8 +826,8 @@ func replayOne(w *world, b rep.Behaviour) bool {
 		switch st.Act() {
 		case "Append":
 			got = w.doAppend(pool, tx)
-		case "Remove":
-			got = w.doRemove(pool, tx)
+		case "Connect":
+			got = w.doConnect(pool, tx)
 		default:
 			rep.Mismatch("unknown action "+st.Act(), c)
 			return false
@@ -840,6 +908,56 @@ func replayOne(w *world, b rep.Behaviour) bool {
 			}
 			return "?"
 		}
+		// at is appended to the keys of disagreements after a Connect step
+		at := ""
+		if st.Act() == "Connect" {
+			at = "@connect:" + sh
+		}
+		// membership: transaction list and fee list
+		realPool := map[string]bool{}
+		var realNames []string
+		for _, h := range snap.Txs {
+			nm, ok := names[h]
+			if !ok {
+				nm = "unknown transaction " + h.String()
+			}
+			realPool[nm] = true
+			realNames = append(realNames, nm)
+		}
+		sort.Strings(realNames)
+		c["real_pool"] = realNames
+		wantPool := map[string]bool{}
+		for _, nm := range strsOf(st, "pool") {
+			wantPool[nm] = true
+			if !realPool[nm] {
+				rep.Violation("C34:pool-membership:"+ownerShape(nm)+":lost"+at, fmt.Sprintf(
+					"after %s %s: %s (%s) is not in the pool any more; nothing in that step concerns it (pool %v, expected %v)",
+					st.Act(), t, nm, ownerShape(nm), realNames, strsOf(st, "pool")), c)
+				return false
+			}
+		}
+		for _, nm := range realNames {
+			if !wantPool[nm] {
+				rep.Violation("C34:pool-membership:"+ownerShape(nm)+":kept"+at, fmt.Sprintf(
+					"after %s %s: %s (%s) is still in the pool (pool %v, expected %v)", st.Act(), t, nm, ownerShape(nm), realNames, strsOf(st, "pool")), c)
+				return false
+			}
+		}
+		var feeSize uint64
+		feeSeen := map[common.Uint256]bool{}
+		for _, it := range snap.FeeList {
+			if _, ok := snap.TxSizes[it.Hash]; !ok || feeSeen[it.Hash] {
+				rep.Violation("C34:pool-lists:fee-list"+at, fmt.Sprintf("after %s %s: the fee list names %s, which the transaction list does not hold (or names it twice)", st.Act(), t, it.Hash.String()), c)
+				return false
+			}
+			feeSeen[it.Hash] = true
+			feeSize += uint64(it.Size)
+		}
+		if len(snap.FeeList) != len(snap.Txs) || feeSize != snap.TotalSize {
+			rep.Violation("C34:pool-lists:fee-list"+at, fmt.Sprintf("after %s %s: %d transactions, %d fee list entries; sizes %d / accounted %d",
+				st.Act(), t, len(snap.Txs), len(snap.FeeList), feeSize, snap.TotalSize), c)
+			return false
+		}
 		for _, slot := range sortedKeys(want2) {
 			var ks []string
 			for k := range want2[slot] {
@@ -851,13 +969,13 @@ func replayOne(w *world, b rep.Behaviour) bool {
 				owner, sym := parts[0], parts[1]
 				ro, ok := realIdx[slot][k]
 				if !ok {
-					rep.Violation("C34:slot-key:"+slot+":"+ownerShape(owner)+":missing", fmt.Sprintf(
+					rep.Violation("C34:slot-key:"+slot+":"+ownerShape(owner)+":missing"+at, fmt.Sprintf(
 						"after %s %s: the pool holds %s (%s) which claims %s in slot %s, but the slot has no such key (slot holds %d keys)",
 						st.Act(), t, owner, ownerShape(owner), sym, slot, len(realIdx[slot])), c)
 					return false
 				}
 				if ro != owner {
-					rep.Violation("C34:slot-key:"+slot+":"+ownerShape(owner)+":owner", fmt.Sprintf(
+					rep.Violation("C34:slot-key:"+slot+":"+ownerShape(owner)+":owner"+at, fmt.Sprintf(
 						"after %s %s: key %s of slot %s belongs to %s in the pool's index, the pool holds it for %s", st.Act(), t, sym, slot, ro, owner), c)
 					return false
 				}
@@ -872,13 +990,13 @@ func replayOne(w *world, b rep.Behaviour) bool {
 			for _, k := range ks {
 				if _, ok := want2[slot][k]; !ok {
 					owner := realIdx[slot][k]
-					rep.Violation("C34:slot-key:"+slot+":"+ownerShape(owner)+":extra", fmt.Sprintf(
+					rep.Violation("C34:slot-key:"+slot+":"+ownerShape(owner)+":extra"+at, fmt.Sprintf(
 						"after %s %s: slot %s holds key %q (owner %s) that no transaction of the pool %v claims", st.Act(), t, slot, k, owner, rep.List(st, "pool")), c)
 					return false
 				}
 			}
 			if len(realIdx[slot]) != len(want2[slot]) {
-				rep.Violation("C34:slot-key:"+slot+":count", fmt.Sprintf("after %s %s: slot %s holds %d keys, expected %d", st.Act(), t, slot, len(realIdx[slot]), len(want2[slot])), c)
+				rep.Violation("C34:slot-key:"+slot+":count"+at, fmt.Sprintf("after %s %s: slot %s holds %d keys, expected %d", st.Act(), t, slot, len(realIdx[slot]), len(want2[slot])), c)
 				return false
 			}
 		}
@@ -916,15 +1034,24 @@ func main() {
 	}
 	// producers registered on chain: named by the CancelProducer templates
 	registered := map[string]string{}
+	inSet := map[string]bool{}
 	for _, b := range behs {
 		for _, st := range b {
 			d := rep.Map(st, "def")
 			if rep.Str(d, "kind") == "CancelProducer" {
 				registered[rep.Str(d, "owner")] = rep.Str(d, "regnode")
 			}
+			for _, in := range strsOf(st, "ins") {
+				inSet[in] = true
+			}
 		}
 	}
-	w, err := newWorld(registered)
+	var inputs []string
+	for in := range inSet {
+		inputs = append(inputs, in)
+	}
+	sort.Strings(inputs)
+	w, err := newWorld(registered, inputs)
 	if err != nil {
 		rep.Mismatch("cannot build node: "+err.Error(), nil)
 		rep.Summary(0, nil, nil)
